@@ -3,6 +3,7 @@
 import json, sys
 pid = sys.argv[1]
 wt = sys.argv[2]
+focus = sys.argv[3] if len(sys.argv) > 3 else ""   # second-round seeds: a clause of the statement to aim at
 p = [json.loads(l) for l in open('/verif/properties.jsonl') if l.strip()]
 p = [x for x in p if x['id'] == pid][0]
 print(f"""You are testing how good a verification suite is by planting a realistic bug. You get a scratch git worktree of the Go project els0r/goProbe (packet-capture flow aggregator with goDB, a columnar time-partitioned flow database, a condition query language and a custom hash map) at {wt} . Work ONLY inside {wt} . Do not read or write anything under /verif, /repo or /root/.vp (those are off limits), and do not look for existing verification machinery: your change must be independent of it.
@@ -14,7 +15,7 @@ The property that goProbe is supposed to satisfy:
   It quantifies over: {', '.join(p['quantifier']['over'])} — {p['quantifier']['text']}
   Code it is anchored in: {', '.join(p['anchors']['files'])}
 
-Your task: make ONE small, realistic change to the goProbe source in the worktree (the kind of mistake a competent developer could make in a refactoring, an optimisation or a bug fix — not sabotage, no dead giveaways like comments saying it is a bug) that BREAKS this property, while
+{("Aim specifically at this part of the property (other parts have been looked at already): " + focus + chr(10) + chr(10)) if focus else ""}Your task: make ONE small, realistic change to the goProbe source in the worktree (the kind of mistake a competent developer could make in a refactoring, an optimisation or a bug fix — not sabotage, no dead giveaways like comments saying it is a bug) that BREAKS this property, while
   (a) everything still compiles (`go build ./...` and `go vet ./<changed pkgs>`),
   (b) the existing test suite still passes, and
   (c) the breakage needs something specific to manifest — a particular interleaving, a crash or I/O fault at a particular point, a multi-step sequence of operations, an unusual input (boundary size, specific value class), a specific configuration, or two cooperating code sites that each look fine alone — NOT something ordinary use would expose at once (a change that makes every query wrong is useless).
